@@ -390,8 +390,14 @@ fn run(tier: Tier, shard: usize, nshards: usize, _seed: u64) -> Partial {
     let mut out = Partial::default();
     let mut cfgs: Vec<Cfg> = vec![];
     let (max_s, max_c) = if tier.is_quick() { (3, 1) } else { (4, 2) };
-    for s in 1..=max_s {
-        for c in 0..=max_c {
+    let mut shapes: Vec<(usize, usize)> = (1..=max_s).flat_map(|s| (0..=max_c).map(move |c| (s, c))).collect();
+    if tier.is_quick() {
+        // a single holder read by a second client (the holder's answer is then the only, and the
+        // last, answer of the reader's lookup)
+        shapes.push((1, 2));
+    }
+    for (s, c) in shapes {
+        {
             let n = s + c;
             if n < 2 {
                 continue;
